@@ -271,80 +271,69 @@ theorem x86_prolog_body_epilog_api (arch : Arch) (harch : arch = .x86 ∨ arch =
   exact x86_prolog_body_epilog g hinv.layoutIn hinv.xin s0 h1 h2 h3
 
 /-!
-Part 3b: every AArch64 frame reachable through the public API *outside the open finding*: alignments up to 16 (no
-dynamic alignment), SA register `sp` or the preserved frame pointer (what `update_func_frame` selects).
+Part 3b: every AArch64 frame reachable through the public API (with fixes/C07-8 no class is excluded any more):
+alignments up to 64, any SA register x0 … x30 or `sp`.
 -/
 
-def P4 (v : Nat) : Prop := v = 0 ∨ ∃ k, k ≤ 4 ∧ v = 2 ^ k
-theorem P4.le {v : Nat} (h : P4 v) : v ≤ 16 := by
-  rcases h with h | ⟨k, hk, rfl⟩
-  · omega
-  · have : 2 ^ k ≤ 2 ^ 4 := Nat.pow_le_pow_right (by omega) hk
-    omega
-theorem P4.max {a b : Nat} (ha : P4 a) (hb : P4 b) : P4 (max a b) := by
-  rcases Nat.le_total a b with h | h
-  · rw [Nat.max_eq_right h]; exact hb
-  · rw [Nat.max_eq_left h]; exact ha
-
-/-- validity of an API call on AArch64 (depends on the frame: x29 is only a valid SA register while the frame
-pointer is preserved) -/
-def OpOKa64 (f : Frame) : FrameOp → Prop
+def OpOKa64 : FrameOp → Prop
   | .setLocalSize v | .updLocalSize v | .setCallSize v | .updCallSize v => v ≤ 2 ^ 28
-  | .setLocalAlign v | .updLocalAlign v | .setCallAlign v | .updCallAlign v => P4 v
-  | .setSaReg r => r = 31 ∨ (r = 29 ∧ f.hasFP = true)
-  | .clearAttrs a => f.saRegId = 29 → (u32 a).testBit 4 = false
-  | .updateFuncFrame _ _ _ _ sa _ => sa = none ∨ sa = some 31 ∨ (sa = some 29 ∧ f.hasFP = true)
+  | .setLocalAlign v | .updLocalAlign v | .setCallAlign v | .updCallAlign v => P60 v
+  | .setSaReg r => r ≤ 31
+  | .updateFuncFrame _ _ _ _ sa _ => ∀ r, sa = some r → r ≤ 31
   | _ => True
-
-def OpsOKa64 : Frame → List FrameOp → Prop
-  | _, [] => True
-  | f, op :: ops => OpOKa64 f op ∧ OpsOKa64 (f.apply op) ops
 
 structure A64Inv (g : Frame) : Prop where
   ain : A64In g
-  callP : P4 g.callAlign
-  localP : P4 g.localAlign
+  finP : P6 g.finalAlign
+  callP : P60 g.callAlign
+  localP : P60 g.localAlign
   sizes : g.callSize ≤ 2 ^ 28 ∧ g.localSize ≤ 2 ^ 28
 
 theorem A64Inv.layoutIn {g : Frame} (h : A64Inv g) : LayoutIn g := by
-  refine ⟨⟨4, by omega, h.ain.align.2.1⟩, ?_, by have := h.sizes; omega, by rw [h.ain.sr0.1]; omega⟩
+  obtain ⟨k, hk, hA⟩ := h.finP
+  refine ⟨⟨k, by omega, hA⟩, ?_, by have := h.sizes; omega, by rw [h.ain.sr0.1]; omega⟩
   rcases h.ain.sr1.1 with e | e
   · exact ⟨3, by omega, e⟩
   · exact ⟨4, by omega, e⟩
 
-/-- the invariant only looks at convention data, alignments, sizes, the SA register and the FP attribute -/
+/-- the invariant only looks at convention data, alignments, sizes and the SA register -/
 theorem A64Inv.of_same (g g' : Frame) (h : A64Inv g) (e1 : g'.arch = g.arch) (e2 : g'.srSize = g.srSize)
     (e3 : g'.srAlign = g.srAlign) (e4 : g'.preserved = g.preserved) (e5 : g'.natAlign = g.natAlign)
     (e6 : g'.minDynAlign = g.minDynAlign) (e7 : g'.finalAlign = g.finalAlign) (e8 : g'.callAlign = g.callAlign)
     (e9 : g'.localAlign = g.localAlign) (e10 : g'.callSize = g.callSize) (e11 : g'.localSize = g.localSize)
     (e12 : g'.calleeCleanup = g.calleeCleanup)
-    (hsa : g'.saRegId = 0xFF ∨ g'.saRegId = 31 ∨ (g'.saRegId = 29 ∧ g'.hasFP = true)) : A64Inv g' := by
-  obtain ⟨ain, callP, localP, hs⟩ := h
+    (hsa : g'.saRegId = 0xFF ∨ g'.saRegId ≤ 31) : A64Inv g' := by
+  obtain ⟨ain, finP, callP, localP, hs⟩ := h
   exact ⟨{ arch := by rw [e1]; exact ain.arch, sr0 := by rw [e2, e3]; exact ain.sr0, sr1 := by rw [e2, e3]; exact ain.sr1,
            sr23 := by rw [e2, e3]; exact ain.sr23, presSp := by rw [e4]; exact ain.presSp, presLr := by rw [e4]; exact ain.presLr,
-           pres23 := by rw [e4]; exact ain.pres23, align := by rw [e5, e6, e7]; exact ain.align, sa := hsa,
+           pres23 := by rw [e4]; exact ain.pres23, nat := by rw [e5, e6, e7]; exact ain.nat, sa := hsa,
            cleanup := by rw [e12]; exact ain.cleanup },
-         by rw [e8]; exact callP, by rw [e9]; exact localP, by rw [e10, e11]; exact hs⟩
+         by rw [e7]; exact finP, by rw [e8]; exact callP, by rw [e9]; exact localP, by rw [e10, e11]; exact hs⟩
 
 theorem A64Inv.addDirtyG (g : Frame) (h : A64Inv g) (i m : Nat) : A64Inv (g.addDirtyG i m) :=
   A64Inv.of_same g _ h rfl rfl rfl rfl rfl rfl rfl rfl rfl rfl rfl rfl h.ain.sa
 
-theorem a64Inv_apply (g : Frame) (h : A64Inv g) (op : FrameOp) (hop : OpOKa64 g op) : A64Inv (g.apply op) := by
+theorem A64Inv.setSa (g : Frame) (h : A64Inv g) (r : Nat) (hr : r = 0xFF ∨ r ≤ 31) : A64Inv { g with saRegId := r } :=
+  A64Inv.of_same g _ h rfl rfl rfl rfl rfl rfl rfl rfl rfl rfl rfl rfl hr
+
+theorem a64Inv_apply (g : Frame) (h : A64Inv g) (op : FrameOp) (hop : OpOKa64 op) : A64Inv (g.apply op) := by
   have hsa := h.ain.sa
-  obtain ⟨hN, hA, hM⟩ := h.ain.align
+  obtain ⟨hN, hM, hA16⟩ := h.ain.nat
   have hcP := h.callP
   have hlP := h.localP
-  have aligns : ∀ (c l fa : Nat), P4 c → P4 l → fa = 16 →
+  have hfP := h.finP
+  have hnP : P6 g.natAlign := by rw [hN]; exact ⟨4, by omega, rfl⟩
+  have aligns : ∀ (c l fa : Nat), P60 c → P60 l → P6 fa → 16 ≤ fa →
       A64Inv { g with callAlign := c, localAlign := l, finalAlign := fa } := by
-    intro c l fa hc hl hfa
-    obtain ⟨ain, _, _, hs⟩ := h
+    intro c l fa hc hl hfa h16
+    obtain ⟨ain, _, _, _, hs⟩ := h
     exact ⟨{ arch := ain.arch, sr0 := ain.sr0, sr1 := ain.sr1, sr23 := ain.sr23, presSp := ain.presSp, presLr := ain.presLr,
-             pres23 := ain.pres23, align := ⟨hN, hfa, hM⟩, sa := ain.sa, cleanup := ain.cleanup }, hc, hl, hs⟩
+             pres23 := ain.pres23, nat := ⟨hN, hM, h16⟩, sa := ain.sa, cleanup := ain.cleanup }, hfa, hc, hl, hs⟩
   have sizes : ∀ (c l : Nat), c ≤ 2 ^ 28 → l ≤ 2 ^ 28 → A64Inv { g with callSize := c, localSize := l } := by
     intro c l hc hl
-    obtain ⟨ain, cP, lP, _⟩ := h
+    obtain ⟨ain, fP, cP, lP, _⟩ := h
     exact ⟨{ arch := ain.arch, sr0 := ain.sr0, sr1 := ain.sr1, sr23 := ain.sr23, presSp := ain.presSp, presLr := ain.presLr,
-             pres23 := ain.pres23, align := ain.align, sa := ain.sa, cleanup := ain.cleanup }, cP, lP, ⟨hc, hl⟩⟩
+             pres23 := ain.pres23, nat := ain.nat, sa := ain.sa, cleanup := ain.cleanup }, fP, cP, lP, ⟨hc, hl⟩⟩
   obtain ⟨hcs, hls⟩ := h.sizes
   cases op with
   | setLocalSize v =>
@@ -360,49 +349,31 @@ theorem a64Inv_apply (g : Frame) (h : A64Inv g) (op : FrameOp) (hop : OpOKa64 g 
     have hv : v ≤ 2 ^ 28 := hop
     exact sizes (max g.callSize (u32 v)) g.localSize (by rw [u32_small hv]; omega) hls
   | setLocalAlign v =>
-    have hv : P4 v := hop
+    have hv : P60 v := hop
     show A64Inv { g with localAlign := u8 v, finalAlign := max3 g.natAlign g.callAlign (u8 v) }
-    rw [u8_small (by have := hv.le; omega)]
-    exact aligns g.callAlign v _ hcP hv (by unfold max3; have := hv.le; have := hcP.le; omega)
+    rw [u8_small hv.le]
+    exact aligns g.callAlign v _ hcP hv ((hnP.max60 hcP).max60 hv) (by unfold max3; omega)
   | setCallAlign v =>
-    have hv : P4 v := hop
+    have hv : P60 v := hop
     show A64Inv { g with callAlign := u8 v, finalAlign := max3 g.natAlign (u8 v) g.localAlign }
-    rw [u8_small (by have := hv.le; omega)]
-    exact aligns v g.localAlign _ hv hlP (by unfold max3; have := hv.le; have := hlP.le; omega)
+    rw [u8_small hv.le]
+    exact aligns v g.localAlign _ hv hlP ((hnP.max60 hv).max60 hlP) (by unfold max3; omega)
   | updLocalAlign v =>
-    have hv : P4 v := hop
+    have hv : P60 v := hop
     have hm := hlP.max hv
     show A64Inv { g with localAlign := u8 (max g.localAlign (u32 v)),
                          finalAlign := max g.finalAlign (u8 (max g.localAlign (u32 v))) }
-    rw [u32_small (by have := hv.le; omega), u8_small (by have := hm.le; omega)]
-    exact aligns g.callAlign _ _ hcP hm (by have := hm.le; omega)
+    rw [u32_small (by have := hv.le; omega), u8_small hm.le]
+    exact aligns g.callAlign _ _ hcP hm (hfP.max60 hm) (by omega)
   | updCallAlign v =>
-    have hv : P4 v := hop
+    have hv : P60 v := hop
     have hm := hcP.max hv
     show A64Inv { g with callAlign := u8 (max g.callAlign (u32 v)),
                          finalAlign := max g.finalAlign (u8 (max g.callAlign (u32 v))) }
-    rw [u32_small (by have := hv.le; omega), u8_small (by have := hm.le; omega)]
-    exact aligns _ g.localAlign _ hm hlP (by have := hm.le; omega)
-  | addAttrs a =>
-    refine A64Inv.of_same g _ h rfl rfl rfl rfl rfl rfl rfl rfl rfl rfl rfl rfl ?_
-    rcases hsa with e | e | ⟨e, hfp⟩
-    · exact Or.inl e
-    · exact Or.inr (Or.inl e)
-    · refine Or.inr (Or.inr ⟨e, ?_⟩)
-      show (g.attrs ||| u32 a).testBit 4 = true
-      exact tb_or_left _ _ _ hfp
-  | clearAttrs a =>
-    have hc : g.saRegId = 29 → (u32 a).testBit 4 = false := hop
-    refine A64Inv.of_same g _ h rfl rfl rfl rfl rfl rfl rfl rfl rfl rfl rfl rfl ?_
-    rcases hsa with e | e | ⟨e, hfp⟩
-    · exact Or.inl e
-    · exact Or.inr (Or.inl e)
-    · refine Or.inr (Or.inr ⟨e, ?_⟩)
-      show (g.attrs &&& (2 ^ 32 - 1 - u32 a)).testBit 4 = true
-      have hlt : u32 a < 2 ^ 32 := Nat.mod_lt _ (by omega)
-      have : 2 ^ 32 - 1 - u32 a = 2 ^ 32 - (u32 a + 1) := by omega
-      rw [Nat.testBit_and, this, Nat.testBit_two_pow_sub_succ hlt, hc e]
-      exact (by rw [show g.attrs.testBit 4 = true from hfp]; rfl)
+    rw [u32_small (by have := hv.le; omega), u8_small hm.le]
+    exact aligns _ g.localAlign _ hm hlP (hfP.max60 hm) (by omega)
+  | addAttrs a => exact A64Inv.of_same g _ h rfl rfl rfl rfl rfl rfl rfl rfl rfl rfl rfl rfl hsa
+  | clearAttrs a => exact A64Inv.of_same g _ h rfl rfl rfl rfl rfl rfl rfl rfl rfl rfl rfl rfl hsa
   | setDirty gi m =>
     show A64Inv (if gi < 4 then g.setDirtyG gi m else g)
     split
@@ -415,40 +386,35 @@ theorem a64Inv_apply (g : Frame) (h : A64Inv g) (op : FrameOp) (hop : OpOKa64 g 
     · exact h
   | setAllDirty => exact A64Inv.of_same g _ h rfl rfl rfl rfl rfl rfl rfl rfl rfl rfl rfl rfl hsa
   | setSaReg r =>
-    have hr : r = 31 ∨ (r = 29 ∧ g.hasFP = true) := hop
-    refine A64Inv.of_same g _ h rfl rfl rfl rfl rfl rfl rfl rfl rfl rfl rfl rfl ?_
-    rcases hr with e | ⟨e, hfp⟩ <;> subst e
-    · exact Or.inr (Or.inl rfl)
-    · exact Or.inr (Or.inr ⟨rfl, hfp⟩)
-  | resetSaReg => exact A64Inv.of_same g _ h rfl rfl rfl rfl rfl rfl rfl rfl rfl rfl rfl rfl (Or.inl rfl)
+    have hr : r ≤ 31 := hop
+    exact A64Inv.setSa g h (u8 r) (Or.inr (by rw [u8_small (by omega)]; exact hr))
+  | resetSaReg => exact A64Inv.setSa g h 0xFF (Or.inl rfl)
   | resetRedZone => exact A64Inv.of_same g _ h rfl rfl rfl rfl rfl rfl rfl rfl rfl rfl rfl rfl hsa
   | updateFuncFrame d0 d1 d2 d3 sa completed =>
-    have hs : sa = none ∨ sa = some 31 ∨ (sa = some 29 ∧ g.hasFP = true) := hop
+    have hs : ∀ r, sa = some r → r ≤ 31 := hop
     simp only [Frame.apply]
     have h4 : A64Inv ((((g.addDirtyG 0 d0).addDirtyG 1 d1).addDirtyG 2 d2).addDirtyG 3 d3) :=
       A64Inv.addDirtyG _ (A64Inv.addDirtyG _ (A64Inv.addDirtyG _ (A64Inv.addDirtyG g h 0 d0) 1 d1) 2 d2) 3 d3
-    have hfp4 : ((((g.addDirtyG 0 d0).addDirtyG 1 d1).addDirtyG 2 d2).addDirtyG 3 d3).hasFP = g.hasFP := rfl
-    generalize (((g.addDirtyG 0 d0).addDirtyG 1 d1).addDirtyG 2 d2).addDirtyG 3 d3 = g4 at h4 hfp4
+    generalize (((g.addDirtyG 0 d0).addDirtyG 1 d1).addDirtyG 2 d2).addDirtyG 3 d3 = g4 at h4
     have hfpid : g4.arch.fpId = 29 := by rw [h4.ain.arch]; rfl
-    rcases hs with e | e | ⟨e, hfp⟩ <;> subst e <;> dsimp only
-    · split
-      · rename_i hc
-        simp only [Bool.and_eq_true] at hc
-        refine A64Inv.of_same g4 _ h4 rfl rfl rfl rfl rfl rfl rfl rfl rfl rfl rfl rfl (Or.inr (Or.inr ⟨?_, hc.2⟩))
-        show u8 g4.arch.fpId = 29; rw [hfpid]; rfl
+    cases sa with
+    | some r =>
+      have hr := hs r rfl
+      exact A64Inv.setSa g4 h4 (u8 r) (Or.inr (by rw [u8_small (by omega)]; exact hr))
+    | none =>
+      dsimp only
+      split
+      · exact A64Inv.setSa g4 h4 (u8 g4.arch.fpId) (Or.inr (by rw [hfpid]; decide))
       · exact h4
-    · exact A64Inv.of_same g4 _ h4 rfl rfl rfl rfl rfl rfl rfl rfl rfl rfl rfl rfl (Or.inr (Or.inl rfl))
-    · exact A64Inv.of_same g4 _ h4 rfl rfl rfl rfl rfl rfl rfl rfl rfl rfl rfl rfl (Or.inr (Or.inr ⟨rfl, by show g4.hasFP = true; rw [hfp4]; exact hfp⟩))
 
-theorem a64_reachable : ∀ (ops : List FrameOp) (g : Frame), A64Inv g → OpsOKa64 g ops → A64Inv (g.applyAll ops) := by
-  intro ops
-  induction ops with
-  | nil => intro g h _; exact h
+theorem a64_reachable (g : Frame) (h : A64Inv g) (ops : List FrameOp) (hops : ∀ op ∈ ops, OpOKa64 op) :
+    A64Inv (g.applyAll ops) := by
+  unfold Frame.applyAll
+  induction ops generalizing g with
+  | nil => exact h
   | cons op ops ih =>
-    intro g h hops
-    unfold Frame.applyAll
     simp only [List.foldl_cons]
-    exact ih (g.apply op) (a64Inv_apply g h op hops.1) hops.2
+    exact ih (g.apply op) (a64Inv_apply g h op (hops op (by simp))) (fun o ho => hops o (List.mem_cons_of_mem _ ho))
 
 /-- what the AArch64 part needs from a convention record -/
 structure A64CC (ci : CallConvInfo) : Prop where
@@ -481,8 +447,9 @@ theorem a64CC_custom (ci : CallConvInfo) (h : A64CC ci) (p : Nat → Nat) (hp : 
 
 theorem a64Inv_init (ci : CallConvInfo) (h : A64CC ci) (used : Nat → Nat) (arg : Nat) : A64Inv (Frame.init ci used arg) := by
   have hsp : ci.arch.spId = 31 := by rw [h.arch]; rfl
-  refine ⟨{ arch := h.arch, sr0 := h.sr0, sr1 := h.sr1, sr23 := h.sr23, presSp := ?_, presLr := ?_, pres23 := ?_, align := ?_,
-            sa := Or.inl rfl, cleanup := ?_ }, Or.inl rfl, Or.inl rfl, ⟨by show (0 : Nat) ≤ _; omega, by show (0 : Nat) ≤ _; omega⟩⟩
+  have hnat : u8 ci.natAlign = 16 := by rw [h.nat]; rfl
+  refine ⟨{ arch := h.arch, sr0 := h.sr0, sr1 := h.sr1, sr23 := h.sr23, presSp := ?_, presLr := ?_, pres23 := ?_, nat := ?_,
+            sa := Or.inl rfl, cleanup := ?_ }, ?_, Or.inl rfl, Or.inl rfl, ⟨by show (0 : Nat) ≤ _; omega, by show (0 : Nat) ≤ _; omega⟩⟩
   · show (clearBit (ci.preserved 0) ci.arch.spId).testBit 31 = false
     rw [hsp]; unfold clearBit
     rw [Nat.testBit_and]
@@ -495,32 +462,34 @@ theorem a64Inv_init (ci : CallConvInfo) (h : A64CC ci) (used : Nat → Nat) (arg
   · intro gi hgi
     show (if gi = 0 then _ else ci.preserved gi) = 0
     rw [if_neg (by omega)]; exact h.pres23 gi hgi
-  · show u8 ci.natAlign = 16 ∧ u8 ci.natAlign = 16 ∧ u8 (u32 (ci.natAlign * 2)) = 32
+  · show u8 ci.natAlign = 16 ∧ u8 (u32 (ci.natAlign * 2)) = 32 ∧ 16 ≤ u8 ci.natAlign
     rw [h.nat]; decide
   · show (if ci.calleePops then _ else 0) = 0
     rw [h.pops]; rfl
+  · show P6 (u8 ci.natAlign); rw [hnat]; exact ⟨4, by omega, rfl⟩
 
-/-- **C07 on AArch64 for every frame reachable through the public API outside the open finding** -/
-theorem a64_prolog_body_epilog_api_partial (id : Nat) (win : Bool) (ci : CallConvInfo)
+/-- **C07 on AArch64 for every frame reachable through the public API** (full strength) -/
+theorem a64_prolog_body_epilog_api (id : Nat) (win : Bool) (ci : CallConvInfo)
     (hcc : initCallConv .a64 id win = some ci) (ci' : CallConvInfo)
     (hci' : ci' = ci ∨ ∃ p : Nat → Nat, (u32 (p 0)).testBit 30 = true ∧ (p 2 = 0 ∧ p 3 = 0) ∧ ci' = ci.withPreserved p)
-    (used : Nat → Nat) (arg : Nat) (ops : List FrameOp) (hops : OpsOKa64 (Frame.init ci' used arg) ops)
+    (used : Nat → Nat) (arg : Nat) (ops : List FrameOp) (hops : ∀ op ∈ ops, OpOKa64 op)
     (pro epi : List Instr) :
     let g := (Frame.init ci' used arg).applyAll ops
     a64Prolog g.finalize = some pro → a64Epilog g.finalize = some epi →
-    ∀ s0 : St, entryOk g.finalize s0 = true → g.finalize.finalSize ≤ s0.gp 31 → s0.gp 30 < 256 ^ 8 →
+    ∀ s0 : St, entryOk g.finalize s0 = true → g.finalize.finalSize + 2 * g.finalAlign ≤ s0.gp 31 → s0.gp 31 < 2 ^ 64 →
+      s0.gp 30 < 256 ^ 8 →
       ∃ s1, run .a64 pro s0 = some s1 ∧ s1.ret = none
         ∧ bodyEntryOk g.finalize s0 s1 = true
         ∧ (∀ x, s0.gp 31 ≤ x → s1.mem x = s0.mem x)
         ∧ ∀ s2, BodyOK g.finalize (s0.gp 31) s1 s2 →
             ∃ s3, run .a64 epi s2 = some s3 ∧ exitOk g.finalize s0 s3 = true ∧ s3.mem = s2.mem := by
-  intro g hpro hepi s0 h1 h2 h3
+  intro g hpro hepi s0 h1 h2 h3 h4
   have hcc0 := a64CC_builtin id win ci hcc
   have hcc' : A64CC ci' := by
     rcases hci' with rfl | ⟨p, hp, hp2, rfl⟩
     · exact hcc0
     · exact a64CC_custom ci hcc0 p hp hp2
-  have hinv : A64Inv g := a64_reachable ops _ (a64Inv_init ci' hcc' used arg) hops
-  exact a64_prolog_body_epilog_partial g hinv.layoutIn hinv.ain pro epi hpro hepi s0 h1 h2 h3
+  have hinv : A64Inv g := a64_reachable _ (a64Inv_init ci' hcc' used arg) ops hops
+  exact a64_prolog_body_epilog g hinv.layoutIn hinv.ain pro epi hpro hepi s0 h1 h2 h3 h4
 
 end AsmjitVerif.Frame
